@@ -72,11 +72,14 @@ package cashu
 //@ func DecodeTokenV3
 //@   tags C14
 //@   safety C14 C06
+// NUT-00: the payload is base64 URL-safe; padded and unpadded input is accepted
+//@   calls (*base64.Encoding).DecodeString asserts @urlsafe [C14] enc == base64.URLEncoding || enc == base64.RawURLEncoding
 //@   ensures @nonnil [C14] err == nil ==> r0 != nil
 
 //@ func DecodeTokenV4
 //@   tags C14
 //@   safety C14 C06
+//@   calls (*base64.Encoding).DecodeString asserts @urlsafe [C14] enc == base64.URLEncoding || enc == base64.RawURLEncoding
 //@   ensures @nonnil [C14] err == nil ==> r0 != nil
 
 //@ func (TokenV3).Mint
@@ -90,10 +93,13 @@ package cashu
 //@ func (TokenV3).Serialize
 //@   tags C14
 //@   safety C14 C06
+// what is written is what the decoders read: the URL-safe alphabet
+//@   calls (*base64.Encoding).EncodeToString asserts @urlsafe [C14] enc == base64.URLEncoding
 
 //@ func (TokenV4).Serialize
 //@   tags C14
 //@   safety C14 C06
+//@   calls (*base64.Encoding).EncodeToString asserts @urlsafe [C14] enc == base64.RawURLEncoding
 
 //@ func (TokenV3).Proofs
 //@   tags C14
